@@ -34,11 +34,11 @@ struct St
   int depth_max;
 } *st;
 
-enum { F_SHORT = 0, F_FLIP, F_DROP, F_DUP, F_NUL, F_OPEN };
-const char *fault_names[] = {"short_read", "flipped_byte", "dropped_byte", "duplicated_byte", "nul_byte", "open_failure", nullptr};
-enum { P_DOC = 0, P_RTERR, P_TREE_EQUAL, P_TRUNC_IN_STRING, P_TRUNC_IN_COMMENT, P_RAW_ACCEPTED, P_DEPTH_GE4, P_SHORT_READ_HIT };
+enum { F_SHORT = 0, F_FLIP, F_DROP, F_DUP, F_NUL, F_OPEN, F_TRUNC };
+const char *fault_names[] = {"short_read", "flipped_byte", "dropped_byte", "duplicated_byte", "nul_byte", "open_failure", "file_truncated", nullptr};
+enum { P_DOC = 0, P_RTERR, P_TREE_EQUAL, P_TRUNC_IN_STRING, P_TRUNC_IN_COMMENT, P_RAW_ACCEPTED, P_DEPTH_GE4, P_SHORT_READ_HIT, P_TRUNC_AFTER_BACKSLASH };
 const char *probe_names[] = {"returned_document", "threw_runtime_error", "tree_compared_equal", "truncated_inside_quoted_string",
-                             "truncated_inside_comment", "raw_bytes_accepted_as_document", "tree_depth_ge_4", "short_read_refused_bytes", nullptr};
+                             "truncated_inside_comment", "raw_bytes_accepted_as_document", "tree_depth_ge_4", "short_read_refused_bytes", "cut_right_after_a_backslash", nullptr};
 
 const char IDCH1[] = "abcXYZ_";
 const char IDCH[] = "abcxyzABC019_.";
@@ -83,8 +83,21 @@ void gen_tree(GNode &n, int depth, int maxdepth, int maxfan, int &budget)
       continue;
     std::string v;
     unsigned vl = sim_plan(8);
-    for (unsigned j = 0; j < vl; j++)
-      v += VALCH[sim_plan(sizeof VALCH - 1)];
+    unsigned plainq = sim_plan(4);  // 1: value may hold plain ' (needs "..."), 2: plain " (needs '...')
+    for (unsigned j = 0; j < vl; j++) {
+      unsigned u = sim_plan(10);
+      if (u == 0) {  // an escape: backslash + any character (quotes included); kept verbatim by the reader
+        v += '\\';
+        static const char ESC[] = "\"'\\nx<";
+        v += ESC[sim_plan(sizeof ESC - 1)];
+      } else if (u == 1 && plainq == 1) {
+        v += '\'';
+      } else if (u == 1 && plainq == 2) {
+        v += '"';
+      } else {
+        v += VALCH[sim_plan(sizeof VALCH - 1)];
+      }
+    }
     n.props.emplace_back(k, v);
   }
   if (sim_plan(3) == 0) {
@@ -128,7 +141,17 @@ void serialise(const GNode &n, std::string &out)
   for (auto &p : n.props) {
     out += gen_ws(true);
     out += p.first + gen_ws(false) + "=" + gen_ws(false);
-    bool dq = p.second.find('"') == std::string::npos && (p.second.find('\'') != std::string::npos || sim_plan(2));
+    // an unescaped quote character forces the other quote style
+    bool has_dq = false, has_sq = false;
+    for (size_t i = 0; i < p.second.size(); i++) {
+      if (p.second[i] == '\\') {
+        i++;
+        continue;
+      }
+      has_dq |= p.second[i] == '"';
+      has_sq |= p.second[i] == '\'';
+    }
+    bool dq = !has_dq && (has_sq || sim_plan(2));
     char q = dq ? '"' : '\'';
     out += q + p.second + q;
   }
@@ -213,9 +236,14 @@ void do_plan(int tier)
   st->bytes = st->original;
   if (st->mode == 1) {
     size_t n = st->bytes.size();
-    unsigned k = sim_plan(12);
+    unsigned k = sim_plan(15);
     long off = (long)sim_plan((uint32_t)n + 1);
-    if (k < 5) {
+    if (k >= 12) {
+      // the stored file lost its tail (torn / incomplete write): the file really ends at `off`
+      st->fault = A16_FAULT_TRUNC;
+      st->fault_arg = off;
+      st->bytes.resize((size_t)off);
+    } else if (k < 5) {
       st->fault = A16_FAULT_SHORT_READ;
       st->fault_arg = off;
     } else if (k < 7 && n) {
@@ -274,14 +302,17 @@ void check()
   }
   if (st->mode == 2 && st->outcome == 0)
     sim_probe(P_RAW_ACCEPTED);
-  if (st->fault == A16_FAULT_SHORT_READ) {
-    sim_fault(F_SHORT, 1, 1);
+  if (st->fault == A16_FAULT_SHORT_READ || st->fault == A16_FAULT_TRUNC) {
+    if (st->fault == A16_FAULT_SHORT_READ)
+      sim_fault(F_SHORT, 1, 1);
     if (simio_stats(3))
       sim_probe(P_SHORT_READ_HIT);
     // where did the cut land?
     size_t k = (size_t)st->fault_arg;
     int quotes = 0;
     bool in_comment = false;
+    if (k > 0 && k <= st->original.size() && st->original[k - 1] == '\\')
+      sim_probe(P_TRUNC_AFTER_BACKSLASH);
     for (size_t i = 0; i < k && i < st->original.size(); i++) {
       if (!in_comment && (st->original[i] == '"'))
         quotes++;
@@ -306,7 +337,7 @@ int stuck(int deadlock, char *cls, size_t n)
 
 void describe(char *buf, size_t n)
 {
-  static const char *fn[] = {"none", "short_read", "flipped_byte", "dropped_byte", "duplicated_byte", "nul_byte", "open_failure", "raw_bytes"};
+  static const char *fn[] = {"none", "short_read", "flipped_byte", "dropped_byte", "duplicated_byte", "nul_byte", "open_failure", "raw_bytes", "file_truncated"};
   std::string doc;
   for (unsigned char c : st->bytes) {
     if (doc.size() > 300)
@@ -340,8 +371,8 @@ int a16_fault(long *arg)
 {
   *arg = st->fault_arg;
   // account the fault as fired (the decision was taken at plan time)
-  static const int map[] = {-1, F_SHORT, F_FLIP, F_DROP, F_DUP, F_NUL, F_OPEN, -1};
-  if (st->fault > A16_FAULT_SHORT_READ && st->fault < A16_RAW)
+  static const int map[] = {-1, F_SHORT, F_FLIP, F_DROP, F_DUP, F_NUL, F_OPEN, -1, F_TRUNC};
+  if (st->fault > A16_FAULT_SHORT_READ && st->fault != A16_RAW)
     sim_fault(map[st->fault], 1, 1);
   return st->fault;
 }
